@@ -14,6 +14,13 @@ theorem lock_some {name : Str} {s s1 : St} (h : lock name s = some s1) :
   · cases h
   · exact ⟨by assumption, by cases h; rfl⟩
 
+theorem lock_fields {name : Str} {s s1 : St} (h : lock name s = some s1) :
+    s1.execLog = s.execLog ∧ s1.modules = s.modules := by
+  unfold lock at h
+  split at h
+  · cases h
+  · cases h; exact ⟨rfl, rfl⟩
+
 theorem lock_none {name : Str} {s : St} : lock name s = none ↔ name ∈ s.loading := by
   unfold lock; split <;> simp_all
 
@@ -668,5 +675,230 @@ def Res.markers : Res → List Marker
 def Res.errOf : Res → Option Err
   | .ok _ => none
   | .err e _ => some e
+
+end Load
+
+namespace Load
+
+/-! ### the execution log: a name is run as a module at most once (needs `importFreshCache` off) -/
+
+/-- `n` is in the module cache -/
+def CachedIn (s : St) (n : Str) : Prop := ∃ id, s.modules.lookup n = some id
+
+/-- invariant: no name was run as a module twice, and every name that was is either cached
+(its run is complete) or still being loaded (its run is in progress) -/
+def LogInv (s : St) : Prop :=
+  s.execLog.Nodup ∧ ∀ n ∈ s.execLog, CachedIn s n ∨ n ∈ s.loading
+
+/-- every module run since `s` is complete (cached) in `s'` -/
+def LogNew (s s' : St) : Prop := ∀ x ∈ s'.execLog, x ∈ s.execLog ∨ CachedIn s' x
+
+def LogOK (enter : Str → St → Res) : Prop :=
+  ∀ n s s', LogInv s → enter n s = .ok s' → s'.execLog.Nodup ∧ LogNew s s'
+
+theorem LogNew.trans {a b c : St} (h1 : LogNew a b) (h2 : LogNew b c) (hc : CacheLe b c) : LogNew a c := by
+  intro x hx
+  rcases h2 x hx with h | h
+  · rcases h1 x h with h' | ⟨id, h'⟩
+    · exact Or.inl h'
+    · exact Or.inr ⟨id, hc x id h'⟩
+  · exact Or.inr h
+
+/-- the invariant is re-established after a balanced, cache-monotone run -/
+theorem LogInv.after {s s' : St} (h : LogInv s) (hn : s'.execLog.Nodup) (hnew : LogNew s s')
+    (hc : CacheLe s s') (hl : s'.loading = s.loading) : LogInv s' := by
+  refine ⟨hn, fun n hn' => ?_⟩
+  rcases hnew n hn' with h1 | h1
+  · rcases h.2 n h1 with ⟨id, h2⟩ | h2
+    · exact Or.inl ⟨id, hc n id h2⟩
+    · exact Or.inr (by rw [hl]; exact h2)
+  · exact Or.inl h1
+
+theorem enterSub_logOK {enter : Str → St → Res} (h : LogOK enter) : LogOK (enterSub enter) := by
+  intro n s s' hinv he
+  unfold enterSub at he
+  split at he
+  · next s2 hs =>
+    cases he
+    have := h n _ s2 (show LogInv { s with fwdSeen := false } from hinv) hs
+    exact this
+  · simp at he
+
+/-- `load_module` on a state where `name` has just been locked (`loading = name :: L`, `name ∉ L`) -/
+theorem loadModule_log {F : Finder} {enter : Str → St → Res} (hlog : LogOK enter)
+    {name : Str} {s1 s' : St} {id : Nat} {L : List Str}
+    (hl1 : s1.loading = name :: L) (hn : name ∉ L)
+    (hnd : s1.execLog.Nodup) (hJ : ∀ n ∈ s1.execLog, CachedIn s1 n ∨ n ∈ L)
+    (he : loadModule F enter name s1 = (.ok s', id)) :
+    s'.execLog.Nodup ∧ LogNew s1 s' ∧ CachedIn s' name := by
+  unfold loadModule at he
+  split at he
+  · next id' hc =>
+    cases he
+    exact ⟨hnd, fun x hx => Or.inl hx, ⟨_, hc⟩⟩
+  · next hnone =>
+    split at he
+    · next s2 hs =>
+      cases he
+      have hnotin : name ∉ s1.execLog := by
+        intro hin
+        rcases hJ name hin with ⟨id', hc⟩ | hL
+        · rw [hnone] at hc; cases hc
+        · exact hn hL
+      have hinv0 : LogInv { s1 with execLog := name :: s1.execLog, fwdSeen := false } := by
+        refine ⟨List.nodup_cons.mpr ⟨hnotin, hnd⟩, fun n hn' => ?_⟩
+        simp only [List.mem_cons] at hn'
+        rcases hn' with rfl | hn'
+        · exact Or.inr (by simp [hl1])
+        · rcases hJ n hn' with h | h
+          · exact Or.inl h
+          · exact Or.inr (by simp [hl1, h])
+      obtain ⟨hnd2, hnew2⟩ := hlog name _ s2 hinv0 hs
+      refine ⟨hnd2, fun x hx => ?_, ⟨s2.modTags.length, by simp [List.lookup]⟩⟩
+      by_cases hxn : x = name
+      · subst hxn; exact Or.inr ⟨s2.modTags.length, by simp [List.lookup]⟩
+      · rcases hnew2 x hx with h | ⟨id', h⟩
+        · simp only [List.mem_cons] at h
+          rcases h with h | h
+          · exact absurd h hxn
+          · exact Or.inl h
+        · have : (x == name) = false := by simpa using hxn
+          exact Or.inr ⟨id', by simp [List.lookup, this, h]⟩
+    · cases he
+
+theorem runFound_log {q : LoadQuirks} (hq : q.importFreshCache = false) {F : Finder}
+    {enter : Str → St → Res} (hlog : LogOK enter)
+    {name : Str} {j : Nat} {b b' : Binds} {s1 s' : St} {k : Kind} {L : List Str}
+    (hl1 : s1.loading = name :: L) (hn : name ∉ L)
+    (hnd : s1.execLog.Nodup) (hJ : ∀ n ∈ s1.execLog, CachedIn s1 n ∨ n ∈ L)
+    (he : runFound q F enter name j b s1 k = (.ok s', b')) :
+    s'.execLog.Nodup ∧ LogNew s1 s' := by
+  have hinv1 : LogInv s1 :=
+    ⟨hnd, fun n hn' => (hJ n hn').imp id (fun h => by rw [hl1]; exact List.mem_cons_of_mem _ h)⟩
+  cases k with
+  | use =>
+    simp only [runFound, runUse] at he
+    split at he
+    · next s2 id hm =>
+      obtain ⟨h1, h2, _⟩ := loadModule_log hlog hl1 hn hnd hJ hm
+      simp only [Prod.mk.injEq, Res.ok.injEq] at he
+      obtain ⟨rfl, _⟩ := he
+      unfold bindModule
+      split <;> exact ⟨h1, h2⟩
+    · simp at he
+  | forward =>
+    simp only [runFound, runForward] at he
+    split at he
+    · next s2 id hm =>
+      obtain ⟨h1, h2, _⟩ := loadModule_log hlog hl1 hn hnd hJ hm
+      simp only [Prod.mk.injEq, Res.ok.injEq] at he
+      obtain ⟨rfl, _⟩ := he
+      exact ⟨h1, h2⟩
+    · simp at he
+  | «import» =>
+    simp only [runFound, runImport, Prod.mk.injEq, cacheIn, cacheOut, hq] at he
+    obtain ⟨he, _⟩ := he
+    split at he
+    · next s2 hs =>
+      have := enterSub_logOK hlog _ _ _ hinv1 hs
+      simp only [Res.ok.injEq] at he
+      subst he
+      exact this
+    · simp at he
+  | loadCss =>
+    simp only [runFound, runLoadCss, Prod.mk.injEq] at he
+    obtain ⟨he, _⟩ := he
+    split at he
+    · have hinvU : LogInv (unlock name s1) :=
+        ⟨hnd, fun n hn' => (hJ n hn').imp id (fun h => by simp [hl1, h])⟩
+      exact enterSub_logOK hlog name (unlock name s1) s' hinvU he
+    · split at he
+      · next s2 hs =>
+        have := enterSub_logOK hlog _ _ _ hinv1 hs
+        simp only [Res.ok.injEq] at he
+        subst he
+        exact this
+      · simp at he
+
+theorem execItem_log {q : LoadQuirks} (hq : q.importFreshCache = false) {F : Finder}
+    {enter : Str → St → Res} (hlog : LogOK enter)
+    {self : Str} {j : Nat} {b b' : Binds} {s s' : St} {it : Item} (hinv : LogInv s)
+    (he : execItem q F enter self j b s it = (.ok s', b')) : s'.execLog.Nodup ∧ LogNew s s' := by
+  have same : ∀ t : St, t.execLog = s.execLog → t.execLog.Nodup ∧ LogNew s t :=
+    fun t ht => ⟨ht ▸ hinv.1, fun x hx => Or.inl (ht ▸ hx)⟩
+  have found : ∀ (name : Str) (calls : List Call) (s1 : St) (k : Kind),
+      lock name { s with calls := calls } = some s1 →
+      runFound q F enter name j b s1 k = (.ok s', b') → s'.execLog.Nodup ∧ LogNew s s' := by
+    intro name calls s1 k hlock hr
+    obtain ⟨hnot, hl⟩ := lock_some hlock
+    obtain ⟨he1, hm1⟩ := lock_fields hlock
+    simp only at hnot hl he1 hm1
+    have hJ : ∀ n ∈ s1.execLog, CachedIn s1 n ∨ n ∈ s.loading := by
+      intro n hn'
+      rw [he1] at hn'
+      rcases hinv.2 n hn' with ⟨id, h⟩ | h
+      · exact Or.inl ⟨id, by rw [hm1]; exact h⟩
+      · exact Or.inr h
+    obtain ⟨h1, h2⟩ := runFound_log hq hlog hl hnot (he1 ▸ hinv.1) hJ hr
+    exact ⟨h1, fun x hx => (h2 x hx).imp (fun h => he1 ▸ h) id⟩
+  cases it with
+  | mark => simp [execItem] at he; obtain ⟨rfl, _⟩ := he; exact same _ rfl
+  | bump k t =>
+    simp only [execItem] at he
+    split at he
+    · simp at he
+    · split at he
+      · simp at he; obtain ⟨rfl, _⟩ := he; exact same _ rfl
+      · simp at he
+  | load k url uq =>
+    simp only [execItem] at he
+    split at he
+    · simp at he
+    · simp at he
+    · split at he
+      · simp at he; obtain ⟨rfl, _⟩ := he; exact same _ rfl
+      · simp at he
+    · next name calls hf =>
+      split at he
+      · simp at he
+      · next s1 hlock => exact found name calls s1 k hlock he
+  | loadWith k url =>
+    simp only [execItem] at he
+    split at he
+    · simp at he
+    · simp at he
+    · simp at he
+    · next name calls hf =>
+      split at he
+      · simp at he
+      · next s1 hlock =>
+        split at he
+        · simp at he
+        · exact found name calls s1 k hlock he
+
+theorem execItems_log {q : LoadQuirks} (hq : q.importFreshCache = false) {F : Finder}
+    {enter : Str → St → Res} (hbal : Balanced enter) (hmono : CacheMono enter) (hlog : LogOK enter)
+    {self : Str} (items : List Item) {j : Nat} {b : Binds} {s s' : St} (hinv : LogInv s)
+    (he : execItems q F enter self items j b s = .ok s') : s'.execLog.Nodup ∧ LogNew s s' := by
+  induction items generalizing j b s with
+  | nil => simp [execItems] at he; subst he; exact ⟨hinv.1, fun x hx => Or.inl hx⟩
+  | cons it rest ih =>
+    simp only [execItems] at he
+    split at he
+    · next s1 b1 h1 =>
+      obtain ⟨hnd1, hnew1⟩ := execItem_log hq hlog hinv h1
+      have hc1 := execItem_cacheLe hq hmono h1
+      have hinv1 := hinv.after hnd1 hnew1 hc1 (execItem_loading hbal h1)
+      obtain ⟨hnd2, hnew2⟩ := ih hinv1 he
+      exact ⟨hnd2, hnew1.trans hnew2 (execItems_cacheLe hq hmono _ he)⟩
+    · simp at he
+
+theorem execBody_logOK (q : LoadQuirks) (hq : q.importFreshCache = false) (F : Finder) (fuel : Nat) :
+    LogOK (execBody q F fuel) := by
+  induction fuel with
+  | zero => intro n s s' _ h; simp [execBody] at h
+  | succ fuel ih =>
+    intro n s s' hinv h
+    exact execItems_log hq (execBody_balanced q F fuel) (execBody_cacheMono q hq F fuel) ih _ hinv h
 
 end Load
